@@ -57,6 +57,11 @@ What to produce:
 Constraints: no network. Do not modify tests. Do not add new files to the package. Do not commit. Your final message should be a 4-line summary (what you restructured, where, why equivalent, test result)."""
 
 
+RENAME = BENIGN.replace("""1. A source change inside {wt}/fortls of 10-60 changed lines, in one to three files, located in the functions the property's "anchors" point at (or their direct helpers). It must be a genuine restructuring, not a comment or whitespace change. Good examples: extract a helper function or method and call it; inline a small helper; rename locals/parameters; replace an if/else chain by early returns or a lookup table; replace a loop by a comprehension or vice versa; hoist a repeated expression into a local; split a long function into two; reorder independent statements; switch `x is None` / `not x` idioms where equivalent; move a guard from callee to all callers or from callers into the callee; change a container type where it does not matter; replace string concatenation by an f-string; rewrite a regular expression into an equivalent one. Combine two or three of these.""", """1. A source change inside {wt}/fortls, in one to four files, in or around the functions the property's "anchors" point at, of ONE of these two kinds (pick the one that fits the code best):
+   (a) RENAME / MOVE: give two or three functions, methods, nested functions, fields or module-level constants that implement the mechanism a clearer name and update EVERY use in the package (and nothing in the tests may break - check which names the tests use and leave those alone), and/or move a module-level helper function to a more fitting module of the package (updating imports), and/or turn a nested function into a method or a module-level function.
+   (b) SMALL FEATURE that leaves the property intact: e.g. an additional log.debug line, an extra optional parameter with a default that no caller uses yet, a new small public helper method that nothing calls yet, support for an additional spelling that is handled by exactly the same code path, a clearer error message text. Nothing that changes what existing inputs produce.""")
+
+
 def main():
     kind, rnd = sys.argv[1], sys.argv[2]
     only = sys.argv[3:]
@@ -74,7 +79,7 @@ def main():
             s = json.load(open(m)).get("summary", "")
             if s and "benign" not in os.path.basename(os.path.dirname(m)):
                 prev.append("- " + s)
-        t = BREAK if kind == "break" else BENIGN
+        t = BREAK if kind == "break" else RENAME if kind == "rename" else BENIGN
         text = t.format(wt=wt, sd=sd, pid=pid, txt=txt, prev="\n".join(prev) or "- (none yet)")
         if kind != "break":
             done = []
